@@ -10,6 +10,7 @@ mod props;
 mod aio;
 mod t01;
 mod t02;
+mod t20;
 
 fn main() {
     let args: Vec<String> = std::env::args().collect();
@@ -18,6 +19,7 @@ fn main() {
     let st = match args.get(1).map(|s| s.as_str()) {
         Some("C01") => t01::run(quick),
         Some("C02") => t02::run(quick),
+        Some("C20") => t20::run(quick),
         _ => {
             eprintln!("hvc-tokio: no tokio twin for {:?}", args.get(1));
             std::process::exit(2);
